@@ -285,6 +285,65 @@ func genC09Tree(t *rapid.T) C09Case {
 	return c
 }
 
+// ---- generator 2c: deep / wide / attribute-flood documents ------------------------------------------
+
+func genC09Shape(t *rapid.T) C09Case {
+	c := C09Case{Kind: "shape", Cfg: rapid.SampledFrom([]int{1, 3, 5}).Draw(t, "cfg")}
+	maxN := 800
+	if h.Thorough() {
+		maxN = 20000
+	}
+	n := rapid.IntRange(1, maxN).Draw(t, "n")
+	vocab := []string{"samlp:Response", "saml:Assertion", "saml:EncryptedAssertion", "ds:Signature", "ds:SignedInfo", "ds:Reference", "ds:Transforms", "saml:Advice", "samlp:Extensions", "xenc:EncryptedData", "x"}
+	tag := rapid.SampledFrom(vocab).Draw(t, "tag")
+	decl := ` xmlns:samlp="urn:oasis:names:tc:SAML:2.0:protocol" xmlns:saml="urn:oasis:names:tc:SAML:2.0:assertion" xmlns:ds="http://www.w3.org/2000/09/xmldsig#" xmlns:xenc="http://www.w3.org/2001/04/xmlenc#"`
+	var sb strings.Builder
+	root := rapid.SampledFrom([]string{"samlp:Response", "samlp:LogoutRequest", "samlp:LogoutResponse"}).Draw(t, "root")
+	sb.WriteString("<" + root + decl + ` ID="r" Version="2.0">`)
+	switch rapid.SampledFrom([]string{"deep", "wide", "attrs", "nsdecls", "longtext", "deep-sigs"}).Draw(t, "shape") {
+	case "deep":
+		c.Stage = "deep"
+		sb.WriteString(strings.Repeat("<"+tag+">", n) + strings.Repeat("</"+tag+">", n))
+	case "wide":
+		c.Stage = "wide"
+		sb.WriteString(strings.Repeat("<"+tag+"/>", n))
+	case "attrs":
+		c.Stage = "attrs"
+		sb.WriteString("<" + tag)
+		for i := 0; i < n; i++ {
+			fmt.Fprintf(&sb, " a%d=\"v\"", i)
+		}
+		sb.WriteString("/>")
+	case "nsdecls":
+		c.Stage = "nsdecls"
+		for i := 0; i < n%500+1; i++ {
+			fmt.Fprintf(&sb, "<p%d:e xmlns:p%d=\"urn:%d\">", i, i, i)
+		}
+		for i := n % 500; i >= 0; i-- {
+			fmt.Fprintf(&sb, "</p%d:e>", i)
+		}
+	case "longtext":
+		c.Stage = "longtext"
+		sb.WriteString("<saml:Issuer>" + strings.Repeat("A", n*20) + "</saml:Issuer>")
+	case "deep-sigs":
+		c.Stage = "deep-sigs"
+		k := n%300 + 1
+		sb.WriteString(strings.Repeat(`<ds:Signature><ds:SignedInfo><ds:CanonicalizationMethod Algorithm="http://www.w3.org/2001/10/xml-exc-c14n#"/><ds:Reference URI="#zz"/></ds:SignedInfo><ds:SignatureValue/>`, k) + strings.Repeat("</ds:Signature>", k))
+	}
+	sb.WriteString("</" + root + ">")
+	c.Input = base64.StdEncoding.EncodeToString([]byte(sb.String()))
+	return c
+}
+
+func checkC09Shape(c C09Case) h.Outcome {
+	meta := c
+	meta.Input = fmt.Sprintf("(%d bytes, regenerate from kind/stage)", len(c.Input))
+	h.Crumb("C09.shape", c)
+	o := checkC09(c)
+	h.ClearCrumb()
+	return o
+}
+
 // ---- generator 3: ciphertext explorer -------------------------------------------------------
 
 type C09Cipher struct {
@@ -499,11 +558,13 @@ func TestC09_PStrings(t *testing.T) { h.RunProp(t, "C09", genC09Strings, checkC0
 func TestC09_PMutate(t *testing.T)  { h.RunProp(t, "C09.mutate", genC09Mutate, checkC09) }
 func TestC09_PCipher(t *testing.T)  { h.RunProp(t, "C09.cipher", genC09Cipher, checkC09Cipher) }
 func TestC09_PTree(t *testing.T)    { h.RunProp(t, "C09.tree", genC09Tree, checkC09) }
+func TestC09_PShape(t *testing.T)   { h.RunProp(t, "C09.shape", genC09Shape, checkC09Shape) }
 func TestC09_Replay(t *testing.T) {
 	h.RunReplay(t, "C09", checkC09)
 	h.RunReplay(t, "C09.mutate", checkC09)
 	h.RunReplay(t, "C09.cipher", checkC09Cipher)
 	h.RunReplay(t, "C09.tree", checkC09)
+	h.RunReplay(t, "C09.shape", checkC09Shape)
 }
 
 // TestC09_GridOffsets: exhaustive truncation at EVERY offset (and a bit flip at every offset in the
